@@ -59,7 +59,8 @@ func encodeCSV(ctx context.Context, fp io.Writer, view *View, options option.Exp
 
 	if !options.WithoutHeader {
 		for i := range view.Header {
-			fields[i] = csv.NewField(view.Header[i].Column, options.EncloseAll)
+			// a line break inside a column name must be enclosed like one inside a field, or it would end the header line
+			fields[i] = csv.NewField(view.Header[i].Column, options.EncloseAll || strings.ContainsAny(view.Header[i].Column, "\r\n"))
 		}
 		if err := w.Write(fields); err != nil {
 			return NewSystemError(err.Error())
